@@ -976,6 +976,12 @@ impl<Writer: Write> Muxer<Writer> {
 
     /// Simple video encoding method.
     pub fn encode_video(&mut self, data: &[u8], duration_ms: u32) -> Result<(), MuxerError> {
+        // Empty input is an error of the caller, reported like write_video does.
+        if data.is_empty() {
+            return Err(MuxerError::EmptyVideoFrame {
+                frame_index: self.video_frame_count,
+            });
+        }
         let pts = self.current_video_pts;
         let is_keyframe = self.is_keyframe(data);
         self.write_video(pts, data, is_keyframe)?;
@@ -1007,12 +1013,16 @@ impl<Writer: Write> Muxer<Writer> {
         match self.video_track.codec {
             VideoCodec::H264 => {
                 // Check for IDR NAL (type 5)
-                let has_idr = AnnexBNalIter::new(data).any(|nal| (nal[0] & 0x1f) == 5);
+                let has_idr = AnnexBNalIter::new(data)
+                    .any(|nal| !nal.is_empty() && (nal[0] & 0x1f) == 5);
                 has_idr
             }
             VideoCodec::H265 => {
                 // Check for IDR NAL (type 19-21)
                 let has_idr = AnnexBNalIter::new(data).any(|nal| {
+                    if nal.is_empty() {
+                        return false;
+                    }
                     let nal_type = (nal[0] >> 1) & 0x3f;
                     (19..=21).contains(&nal_type)
                 });
@@ -1036,13 +1046,8 @@ impl<Writer: Write> Muxer<Writer> {
                 // Use VP9 keyframe detection
                 let is_key = is_vp9_keyframe(data).unwrap_or(false);
 
-                // INV-104: VP9 keyframe detection must handle invalid frames gracefully
-                assert_invariant!(
-                    is_key || data.len() >= 3,
-                    "VP9 keyframe detection requires minimum frame size",
-                    "api::is_keyframe::vp9"
-                );
-
+                // Frames too short for a VP9 header are not keyframes; write_video
+                // reports them through its return value.
                 is_key
             }
         }
